@@ -274,13 +274,21 @@ class Shim:
             ax += [SQRT(a) >= 0, z3.Implies(a > 0, 2 * LOG10(SQRT(a)) == LOG10(a)), (SQRT(a) < c10) == (a < c20),
                    (SQRT(a) == 0) == (a == 0)]
         ax.append(2 * LOG10(c10) == LOG10(c20))
-        sqs = list(self.rec["sq"]) + list(extra_sq)
+        sqs, seen = [], set()
+        for a in list(self.rec["sq"]) + list(extra_sq):      # structurally identical terms once (long windows of constants)
+            if a.get_id() not in seen:
+                seen.add(a.get_id())
+                sqs.append(a)
         for a in sqs:
             ax += [SQ(a) >= 0, SQ(a) == SQ(-a), (SQ(a) == 0) == (a == 0)]
         for a, b in itertools.combinations(sqs, 2):
             absa, absb = z3.If(a < 0, -a, a), z3.If(b < 0, -b, b)
             ax += [z3.Implies(absa < absb, SQ(a) < SQ(b)), z3.Implies(absa == absb, SQ(a) == SQ(b))]
-        logs = list(self.rec["log10"]) + list(extra_log)
+        logs, seen = [], set()
+        for a in list(self.rec["log10"]) + list(extra_log):
+            if a.get_id() not in seen:
+                seen.add(a.get_id())
+                logs.append(a)
         for a, b in itertools.combinations(logs, 2):
             ax += [z3.Implies(z3.And(a > 0, b > 0, a < b), LOG10(a) < LOG10(b)), z3.Implies(a == b, LOG10(a) == LOG10(b))]
         return ax
